@@ -636,6 +636,51 @@ Section Model.
   Definition wire_bytes (w : list (bool * bytes)) : bytes := concat (map snd w).
 End Model.
 
+(* ------------------------------------------------------------------ vocabulary of the theorems *)
+Definition K200 := PROXY_TUNNEL_ESTABLISHED_RESPONSE_PKT.
+
+(* the ssl context settings the verification policy prescribes for the upstream handshake *)
+Definition policy_call (fl : flags) (h : bytes) : wrap_call :=
+  {| wc_cafile := ca_file fl;
+     wc_check_hostname := negb (insecure_tls_interception fl);
+     wc_verify_mode := if insecure_tls_interception fl then CERT_NONE else CERT_REQUIRED;
+     wc_server_hostname := Some (strip_brackets h) |}.
+
+(* an openssl command that is "about host h": file names derived from h below ca_cert_dir, the
+   subjectAltName of h, the configured leaf key and signing CA *)
+Definition good_cmd (is_ip_literal : bytes -> bool) (fl : flags) (h : bytes) (c : openssl_cmd) : Prop :=
+  exists dir key cakey cacrt,
+    ca_cert_dir fl = Some dir /\ ca_signing_key_file fl = Some key /\
+    ca_key_file fl = Some cakey /\ ca_cert_file fl = Some cacrt /\
+    match c with
+    | CmdReqX509 subj k out days cfg he =>
+        k = key /\ out = path_join dir (h ++ bs ".pub") /\
+        cfg = LF :: bs "[PROXY]" ++ LF :: bs "subjectAltName=" ++ get_alt_name is_ip_literal h /\ he = true /\
+        exists peer_subject, subj = build_subject peer_subject
+    | CmdX509ToReq crt k out =>
+        crt = path_join dir (h ++ bs ".pub") /\ k = key /\ out = path_join dir (h ++ bs ".csr")
+    | CmdSign ca_crt ca_key csr out days ext =>
+        ca_crt = cacrt /\ ca_key = cakey /\ csr = path_join dir (h ++ bs ".csr") /\
+        out = generated_cert_file_path dir h /\ ext = LF :: bs "subjectAltName=" ++ get_alt_name is_ip_literal h
+    end.
+
+(* the calls wrap_client may make *)
+Definition client_side_effect (is_ip_literal : bytes -> bool) (fl : flags) (h : bytes) (e : effect) : Prop :=
+  match e with
+  | EOpenssl c => good_cmd is_ip_literal fl h c
+  | EClientFlush _ => True
+  | EClientWrap k cert =>
+      ca_signing_key_file fl = Some k /\ exists dir, ca_cert_dir fl = Some dir /\ cert = generated_cert_file_path dir h
+  | _ => False
+  end.
+
+Definition is_openssl (e : effect) : bool := match e with EOpenssl _ => true | _ => false end.
+Definition is_up_wrap (e : effect) : bool := match e with EUpstreamWrap _ => true | _ => false end.
+Definition count_up_wraps (t : trace) : nat := length (filter is_up_wrap t).
+
+Definition plain_wire (w : list (bool * bytes)) : Prop := Forall (fun x => fst x = false) w.
+Definition tls_wire (w : list (bool * bytes)) : Prop := Forall (fun x => fst x = true) w.
+
 (* What is assumed of openssl's verification (the part of the property that is not proxy.py's logic):
    [chain_ok cafile] - the origin's certificate chain verifies against that trust store (issuer known,
    within its validity period); [name_ok host] - the certificate names that host.
@@ -657,6 +702,16 @@ Definition upstream_chunks (evs : list event) : list bytes :=
 Definition event_answers (ev : event) : option (list bool) :=
   match ev with ClientData a _ | UpstreamData a _ => Some a | _ => None end.
 Definition is_FlushClient (ev : event) : bool := match ev with FlushClient => true | _ => false end.
+
+(* an event at which interception is (still) declined: flags incomplete or some plugin answers False *)
+Definition declined (fl : flags) (ev : event) : Prop :=
+  forall a, event_answers ev = Some a -> tls_intercept_enabled_ fl a = false.
+Definition engaged_at (fl : flags) (ev : event) : Prop :=
+  forall a, event_answers ev = Some a -> tls_intercept_enabled_ fl a = true.
+
+(* both sides wrapped and the handler running *)
+Definition established {PS RS : Type} (h : hstate PS RS) : Prop :=
+  mode PS RS h = Running /\ cl (ps PS RS h) = ClTls /\ up (ps PS RS h) = UpTls.
 
 Section Reference.
   Variable PS RS : Type.
